@@ -684,7 +684,7 @@ func TestCheck(t *testing.T) {
 		h := genSeq(rng, "informer", 14)
 		k.guarded(h, func() { k.runSeq(h, i) })
 	}
-	nConsume := r.N(1200, 120000)
+	nConsume := r.N(1200, 60000)
 	for i := 0; i < nConsume && r.Violations() < 28; i++ {
 		engine := "direct"
 		if i%16 == 15 {
@@ -693,7 +693,7 @@ func TestCheck(t *testing.T) {
 		h := genConsume(rng, engine)
 		k.guarded(h, func() { k.runSeq(h, i) })
 	}
-	nConfig := r.N(240, 12000)
+	nConfig := r.N(240, 8000)
 	for i := 0; i < nConfig && r.Violations() < 32; i++ {
 		h := genConfig(rng)
 		k.guarded(h, func() { k.runConfig(h, i) })
